@@ -156,7 +156,10 @@ def bar(
 @check_ndim(2)
 def map(h2: Histogram2D, **kwargs) -> go.Figure:
     """Heatmap."""
-    data = [go.Heatmap(z=h2.frequencies, **kwargs)]
+    # Heatmap expects z[row][column] with rows along y => transpose
+    kwargs.setdefault("x", h2.get_bin_centers(0))
+    kwargs.setdefault("y", h2.get_bin_centers(1))
+    data = [go.Heatmap(z=h2.frequencies.T, **kwargs)]
     layout = go.Layout()
     figure = go.Figure(data=data, layout=layout)
     return figure
